@@ -36,17 +36,6 @@ EFFECT_CHECKED_OPS = {
 }
 
 
-def window_alias_effects(sig, case):
-    """exo's effect analysis attributes accesses made through a WindowStmt alias to the
-    alias name and treats a WindowStmt as no binder; any effect-based safety check is
-    then blind when one buffer is live under two names (with a write)"""
-    return (
-        bool(_diag(sig).get("live_window_alias"))
-        and sig.get("op") in EFFECT_CHECKED_OPS
-        and sig.get("monitor") in ("equiv", "safety", "validate", "validate-subproc")
-    )
-
-
 def fission_assign_then_reduce(sig, case):
     """fission accepted although the loop-invariant pre-gap block assigns a location the
     post-gap block reduces into (Commutes_Fissioning's a1_no_loop_var relaxation)"""
